@@ -136,8 +136,16 @@ Proof.
 Qed.
 
 (** * Several pairs: frame and global invariant *)
+(* a call inside a multi-log transaction: not made by the module address either *)
+Definition leg_origin_ok (l : leg) : Prop :=
+  match l with LTransfer _ from _ _ => from <> MOD | _ => True end.
+
 Definition origin_ok_op (o : op) : Prop :=
-  match o with OnPair _ po => origin_ok po | SetParams _ _ => True end.
+  match o with
+  | OnPair _ po => origin_ok po
+  | SetParams _ _ => True
+  | EvmTx legs => Forall leg_origin_ok legs
+  end.
 
 Definition state_inv (s : state) : Prop :=
   wf_blocked (blocked s) /\ forall p, pair_inv (pairs s p).
@@ -171,11 +179,318 @@ Lemma exec_setparams s m h s' :
   exec s (SetParams m h) = Some s' -> blocked s' = blocked s /\ pairs s' = pairs s.
 Proof. cbn [exec]. intros H; inversion H; subst; clear H. cbn. auto. Qed.
 
+(* an ordinary transfer touches the token balances of the two parties only *)
+Lemma tmove_effect ps a b amt ps' :
+  tmove ps a b amt = Some ps' ->
+  p_cbal ps' = p_cbal ps /\ p_supply ps' = p_supply ps /\ p_total ps' = p_total ps /\
+  p_kind ps' = p_kind ps /\ p_enabled ps' = p_enabled ps /\ p_sendok ps' = p_sendok ps /\
+  p_selfburned ps' = p_selfburned ps /\ p_stuck ps' = p_stuck ps /\
+  (forall x, x <> a -> x <> b -> p_tbal ps' x = p_tbal ps x) /\
+  (a <> b -> p_tbal ps' a = p_tbal ps a - amt /\ p_tbal ps' b = p_tbal ps b + amt) /\
+  (a = b -> p_tbal ps' a = p_tbal ps a).
+Proof.
+  unfold tmove. destruct (_ || _); [discriminate|]. destruct (_ <? _); [discriminate|].
+  intros E; inversion E; subst; clear E. cbn.
+  repeat split; try reflexivity.
+  - intros x Ha Hb. now rewrite !upd_other.
+  - rewrite upd_other by assumption. apply upd_same.
+  - rewrite upd_same. rewrite upd_other by congruence. reflexivity.
+  - intros ->. rewrite !upd_same. lia.
+Qed.
+
+
+(** * One Ethereum transaction with several logs (op [EvmTx])
+
+    Phase 1 executes every call of the transaction, phase 2 is the loop of PostTxProcessing
+    over all logs.  Between the two phases an external pair is AHEAD of its invariant: the
+    module already holds the tokens of every Transfer-to-module log whose coins are not yet
+    minted.  [credit q l] is that advance for pair q and log l; the invariant with a credit
+    [c] says  supply + c <= balanceOf(module).  Each iteration of the hook's loop uses up the
+    credit of its own log and of no other. *)
+Definition to_mod_amt (to : addr) (amt : Z) : Z :=
+  if N.eqb to MOD && (0 <? amt) then amt else 0.
+
+Definition credit (q : Z) (l : leg) : Z :=
+  match l with
+  | LTransfer p _ to amt => if p =? q then to_mod_amt to amt else 0
+  | _ => 0
+  end.
+
+Fixpoint credits (q : Z) (ls : list leg) : Z :=
+  match ls with [] => 0 | l :: r => credit q l + credits q r end.
+
+Definition backing_c (ps : pair) (c : Z) : Prop :=
+  match p_kind ps with
+  | ModuleOwned => escrow ps = p_total ps + p_selfburned ps + p_stuck ps
+  | External => p_supply ps + c <= p_tbal ps MOD
+  end.
+
+Definition pair_inv_c (ps : pair) (c : Z) : Prop := backing_c ps c /\ ghosts_nonneg ps.
+
+Lemma pair_inv_c_0 ps : pair_inv_c ps 0 <-> pair_inv ps.
+Proof.
+  unfold pair_inv_c, pair_inv, backing_c, backing. destruct (p_kind ps).
+  - tauto.
+  - rewrite Z.add_0_r. tauto.
+Qed.
+
+Lemma pair_inv_c_eq ps c c' : c = c' -> pair_inv_c ps c -> pair_inv_c ps c'.
+Proof. now intros <-. Qed.
+
+Lemma to_mod_amt_nonneg to amt : 0 <= to_mod_amt to amt.
+Proof.
+  unfold to_mod_amt. destruct (N.eqb to MOD); cbn [andb]; [|lia].
+  destruct (0 <? amt) eqn:A; [apply Z.ltb_lt in A|]; lia.
+Qed.
+
+(* phase 1, one call: an ordinary transfer not signed by the module keeps the invariant and
+   earns the credit of its log *)
+Lemma tmove_inv_c ps from to amt ps' c :
+  from <> MOD -> 0 <= amt -> tmove ps from to amt = Some ps' ->
+  pair_inv_c ps c -> pair_inv_c ps' (c + to_mod_amt to amt).
+Proof.
+  intros Hf Ha E [B [G1 G2]].
+  destruct (tmove_effect _ _ _ _ _ E) as (Hc & Hs & Ht & Hk & _ & _ & Hb & Hu & Ho & Hd & _).
+  unfold pair_inv_c, ghosts_nonneg, backing_c, escrow in *.
+  rewrite Hk, Hc, Hs, Ht, Hb, Hu. split; [|split; assumption].
+  destruct (p_kind ps); [exact B|].
+  unfold to_mod_amt. destruct (N.eqb_spec to MOD) as [->|Hn]; cbn [andb].
+  - destruct (Hd Hf) as [_ Hm]. rewrite Hm.
+    destruct (0 <? amt); lia.
+  - rewrite (Ho MOD) by congruence. lia.
+Qed.
+
+(* phase 2, one iteration of the loop: the hook uses up exactly the credit of its log *)
+Lemma hook_inv_c m h bl ps from to amt c :
+  wf_blocked bl -> pair_inv_c ps (c + to_mod_amt to amt) ->
+  pair_inv_c (hook m h bl ps from to amt) c.
+Proof.
+  intros W [B [G1 G2]]. unfold wf_blocked in W.
+  pose proof (to_mod_amt_nonneg to amt) as Hn.
+  unfold pair_inv_c, ghosts_nonneg, backing_c, escrow, to_mod_amt in *.
+  unfold hook.
+  destruct (negb m || negb h); [destruct (p_kind ps); repeat split; try assumption; lia|].
+  destruct (0 <? amt) eqn:A; cbn [negb];
+    [|rewrite Bool.andb_false_r in *; destruct (p_kind ps); repeat split; try assumption; lia].
+  destruct (N.eqb to MOD) eqn:T; cbn [negb andb] in *;
+    [|destruct (p_kind ps); repeat split; try assumption; lia].
+  destruct (negb (p_enabled ps)); [destruct (p_kind ps); repeat split; try assumption; lia|].
+  apply Z.ltb_lt in A.
+  destruct (p_kind ps) eqn:K.
+  - unfold tburn. rewrite MOD_eqb_ZERO.
+    destruct (p_tbal ps MOD <? amt) eqn:C; [rewrite K; repeat split; assumption|].
+    apply Z.ltb_ge in C.
+    unfold csend_m2a, csend. cbn [set_t p_cbal].
+    destruct (bl from) eqn:F; [cbn; rewrite K; repeat split; lia|].
+    destruct (p_cbal ps MOD <? amt) eqn:D; [cbn; rewrite K; repeat split; lia|].
+    apply Z.ltb_ge in D.
+    assert (from <> MOD) by (intros ->; congruence).
+    cbn. rewrite K. unfold upd. rewrite N.eqb_refl.
+    destruct (N.eqb_spec MOD from); [congruence|]. repeat split; lia.
+  - unfold csend_m2a, csend, cmint. cbn [set_c p_cbal].
+    destruct (bl from) eqn:F; [cbn; rewrite K; repeat split; lia|].
+    destruct (upd (p_cbal ps) MOD (p_cbal ps MOD + amt) MOD <? amt);
+      cbn; rewrite K; repeat split; lia.
+Qed.
+
+Lemma leg_exec_inv f l f1 (c : Z -> Z) :
+  leg_origin_ok l -> leg_exec f l = Some f1 ->
+  (forall q, pair_inv_c (f q) (c q)) -> forall q, pair_inv_c (f1 q) (c q + credit q l).
+Proof.
+  intros O E I q. destruct l as [p from to amt|p owner spender amt|from to amt];
+    cbn [leg_exec leg_origin_ok credit] in *.
+  - destruct (amt <? 0) eqn:A; [discriminate|]. apply Z.ltb_ge in A.
+    destruct (tmove (f p) from to amt) as [ps1|] eqn:E1; [|discriminate].
+    inversion E; subst; clear E.
+    destruct (Z.eqb_spec p q) as [->|Hq].
+    + rewrite updp_same. eapply tmove_inv_c; [exact O|exact A|exact E1|apply I].
+    + rewrite updp_other by congruence. rewrite Z.add_0_r. apply I.
+  - destruct (_ || _); [discriminate|]. inversion E; subst. rewrite Z.add_0_r. apply I.
+  - inversion E; subst. rewrite Z.add_0_r. apply I.
+Qed.
+
+Lemma legs_exec_inv ls : forall f f' (c : Z -> Z),
+  Forall leg_origin_ok ls -> legs_exec f ls = Some f' ->
+  (forall q, pair_inv_c (f q) (c q)) -> forall q, pair_inv_c (f' q) (c q + credits q ls).
+Proof.
+  induction ls as [|l r IH]; intros f f' c O E I q; cbn [legs_exec credits] in *.
+  - inversion E; subst. rewrite Z.add_0_r. apply I.
+  - inversion O as [|? ? Ol Or]; subst.
+    destruct (leg_exec f l) as [f1|] eqn:E1; [|discriminate].
+    eapply pair_inv_c_eq; [|apply (IH f1 f' (fun q => c q + credit q l) Or E)].
+    + cbn beta. lia.
+    + intros q'. eapply leg_exec_inv; eassumption.
+Qed.
+
+Lemma hook_leg_inv m h bl f l (c : Z -> Z) :
+  wf_blocked bl -> (forall q, pair_inv_c (f q) (c q + credit q l)) ->
+  forall q, pair_inv_c (hook_leg m h bl f l q) (c q).
+Proof.
+  intros W I q. destruct l as [p from to amt|p owner spender amt|from to amt];
+    cbn [hook_leg credit] in *.
+  - destruct (Z.eqb_spec p q) as [->|Hq].
+    + rewrite updp_same. apply hook_inv_c; [exact W|].
+      specialize (I q). now rewrite Z.eqb_refl in I.
+    + rewrite updp_other by congruence. specialize (I q).
+      destruct (Z.eqb_spec p q); [contradiction|]. now rewrite Z.add_0_r in I.
+  - specialize (I q). now rewrite Z.add_0_r in I.
+  - specialize (I q). now rewrite Z.add_0_r in I.
+Qed.
+
+Lemma hooks_run_inv m h bl ls : forall f (c : Z -> Z),
+  wf_blocked bl -> (forall q, pair_inv_c (f q) (c q + credits q ls)) ->
+  forall q, pair_inv_c (hooks_run m h bl f ls q) (c q).
+Proof.
+  unfold hooks_run. induction ls as [|l r IH]; intros f c W I q; cbn [fold_left credits] in *.
+  - specialize (I q). now rewrite Z.add_0_r in I.
+  - apply IH; [exact W|]. intros q'.
+    apply (hook_leg_inv m h bl f l (fun x => c x + credits x r) W).
+    intros x. eapply pair_inv_c_eq; [|apply I]. lia.
+Qed.
+
+(* the whole transaction: all calls, then the hook over all logs *)
+Lemma exec_tx_inv s legs s' :
+  Forall leg_origin_ok legs -> state_inv s ->
+  exec s (EvmTx legs) = Some s' -> state_inv s'.
+Proof.
+  intros O [W I] E. cbn [exec] in E.
+  destruct (legs_exec (pairs s) legs) as [f|] eqn:E1; [|discriminate].
+  inversion E; subst; clear E. split; [exact W|]. cbn [pairs].
+  intros q. apply pair_inv_c_0.
+  apply (hooks_run_inv _ _ _ legs f (fun _ => 0) W). intros x.
+  apply (legs_exec_inv legs (pairs s) f (fun _ => 0) O E1).
+  intros y. apply pair_inv_c_0. apply I.
+Qed.
+
+(* what a multi-log transaction cannot change before the hook runs: the calls are ordinary
+   transfers (and approvals), which touch token balances only *)
+Definition same_static (ps ps' : pair) : Prop :=
+  p_cbal ps' = p_cbal ps /\ p_supply ps' = p_supply ps /\ p_total ps' = p_total ps /\
+  p_kind ps' = p_kind ps /\ p_enabled ps' = p_enabled ps /\ p_sendok ps' = p_sendok ps /\
+  p_selfburned ps' = p_selfburned ps /\ p_stuck ps' = p_stuck ps.
+
+Lemma same_static_refl ps : same_static ps ps.
+Proof. unfold same_static. repeat split; reflexivity. Qed.
+
+Lemma same_static_trans a b c : same_static a b -> same_static b c -> same_static a c.
+Proof.
+  unfold same_static. intros (A1 & A2 & A3 & A4 & A5 & A6 & A7 & A8) (B1 & B2 & B3 & B4 & B5 & B6 & B7 & B8).
+  repeat split; congruence.
+Qed.
+
+Lemma tmove_static ps a b amt ps' : tmove ps a b amt = Some ps' -> same_static ps ps'.
+Proof.
+  intros E. destruct (tmove_effect _ _ _ _ _ E) as (H1 & H2 & H3 & H4 & H5 & H6 & H7 & H8 & _).
+  unfold same_static. repeat split; assumption.
+Qed.
+
+Lemma leg_exec_static f l f1 : leg_exec f l = Some f1 -> forall q, same_static (f q) (f1 q).
+Proof.
+  intros E q. destruct l as [p from to amt|p owner spender amt|from to amt]; cbn [leg_exec] in E.
+  - destruct (amt <? 0); [discriminate|].
+    destruct (tmove (f p) from to amt) as [ps1|] eqn:E1; [|discriminate].
+    inversion E; subst; clear E.
+    destruct (Z.eq_dec q p) as [->|Hq].
+    + rewrite updp_same. eapply tmove_static; exact E1.
+    + rewrite updp_other by exact Hq. apply same_static_refl.
+  - destruct (_ || _); [discriminate|]. inversion E; subst. apply same_static_refl.
+  - inversion E; subst. apply same_static_refl.
+Qed.
+
+Lemma legs_exec_static ls : forall f f',
+  legs_exec f ls = Some f' -> forall q, same_static (f q) (f' q).
+Proof.
+  induction ls as [|l r IH]; intros f f' E q; cbn [legs_exec] in E.
+  - inversion E; subst. apply same_static_refl.
+  - destruct (leg_exec f l) as [f1|] eqn:E1; [|discriminate].
+    eapply same_static_trans; [eapply leg_exec_static; exact E1|apply (IH f1 f' E)].
+Qed.
+
+(* the hook with a switch off does nothing *)
+Lemma hook_closed m h bl ps from to amt :
+  m = false \/ h = false \/ p_enabled ps = false -> hook m h bl ps from to amt = ps.
+Proof.
+  intros [->|[->|G]]; unfold hook; [reflexivity|now rewrite Bool.orb_true_r|].
+  rewrite G. cbn [negb].
+  destruct (negb m || negb h); [reflexivity|].
+  destruct (negb (0 <? amt)); [reflexivity|].
+  destruct (negb (N.eqb to MOD)); reflexivity.
+Qed.
+
+Lemma hooks_run_closed m h bl ls : forall f q,
+  m = false \/ h = false \/ p_enabled (f q) = false -> hooks_run m h bl f ls q = f q.
+Proof.
+  unfold hooks_run. induction ls as [|l r IH]; intros f q G; cbn [fold_left]; [reflexivity|].
+  assert (S : hook_leg m h bl f l q = f q).
+  { destruct l as [p from to amt|p owner spender amt|from to amt]; cbn [hook_leg]; try reflexivity.
+    destruct (Z.eq_dec q p) as [->|Hq].
+    - rewrite updp_same. now apply hook_closed.
+    - now rewrite updp_other. }
+  rewrite IH; [exact S|]. rewrite S. exact G.
+Qed.
+
+(* the hook never touches the kind, the flags or the self-destroyed counter *)
+Lemma hook_flags m h bl ps from to amt :
+  let ps' := hook m h bl ps from to amt in
+  p_kind ps' = p_kind ps /\ p_enabled ps' = p_enabled ps /\ p_sendok ps' = p_sendok ps /\
+  p_selfburned ps' = p_selfburned ps.
+Proof.
+  cbn zeta. unfold hook.
+  destruct (negb m || negb h); [tauto|].
+  destruct (negb (0 <? amt)); [tauto|].
+  destruct (negb (N.eqb to MOD)); [tauto|].
+  destruct (negb (p_enabled ps)); [tauto|].
+  destruct (p_kind ps) eqn:K.
+  - unfold tburn. destruct (N.eqb MOD ZERO); [tauto|].
+    destruct (p_tbal ps MOD <? amt); [tauto|].
+    unfold csend_m2a, csend. destruct (bl from); [cbn; tauto|].
+    destruct (_ <? _); cbn; tauto.
+  - unfold csend_m2a, csend. destruct (bl from); [cbn; tauto|].
+    destruct (_ <? _); cbn; tauto.
+Qed.
+
+Lemma hooks_run_selfburned m h bl ls : forall f q,
+  p_selfburned (hooks_run m h bl f ls q) = p_selfburned (f q).
+Proof.
+  unfold hooks_run. induction ls as [|l r IH]; intros f q; cbn [fold_left]; [reflexivity|].
+  rewrite IH. destruct l as [p from to amt|p owner spender amt|from to amt]; cbn [hook_leg]; try reflexivity.
+  destruct (Z.eq_dec q p) as [->|Hq].
+  - rewrite updp_same. apply hook_flags.
+  - now rewrite updp_other.
+Qed.
+
+(* a multi-log transaction never counts as tokens destroyed by their holders *)
+Lemma exec_tx_selfburned s legs s' :
+  exec s (EvmTx legs) = Some s' ->
+  forall q, p_selfburned (pairs s' q) = p_selfburned (pairs s q).
+Proof.
+  intros E q. cbn [exec] in E.
+  destruct (legs_exec (pairs s) legs) as [f|] eqn:E1; [|discriminate].
+  inversion E; subst; clear E. cbn [pairs]. rewrite hooks_run_selfburned.
+  apply (legs_exec_static legs (pairs s) f E1 q).
+Qed.
+
+(* with a switch of pair p off, a multi-log transaction is, for pair p, its ordinary
+   transfers and nothing else *)
+Lemma exec_tx_closed s legs s' p :
+  en_mod s = false \/ en_hook s = false \/ p_enabled (pairs s p) = false ->
+  exec s (EvmTx legs) = Some s' ->
+  same_static (pairs s p) (pairs s' p) /\ en_mod s' = en_mod s /\ blocked s' = blocked s.
+Proof.
+  intros G E. cbn [exec] in E.
+  destruct (legs_exec (pairs s) legs) as [f|] eqn:E1; [|discriminate].
+  inversion E; subst; clear E. cbn [pairs en_mod blocked].
+  pose proof (legs_exec_static legs (pairs s) f E1 p) as S.
+  rewrite hooks_run_closed.
+  - repeat split; try reflexivity; apply S.
+  - destruct S as (_ & _ & _ & _ & He & _). rewrite He. exact G.
+Qed.
+
 Theorem backing_step s o :
   origin_ok_op o -> state_inv s -> state_inv (deliver s o).
 Proof.
   intros O [W I]. unfold deliver. destruct (exec s o) as [s'|] eqn:E; [|split; assumption].
-  destruct o as [p po|m h].
+  destruct o as [p po|m h|legs].
   - destruct (exec_frame _ _ _ _ E) as (_ & _ & Hb & Hf).
     pose proof (exec_pair_of _ _ _ _ E) as Ep.
     split; [now rewrite Hb|]. intros q.
@@ -184,6 +499,7 @@ Proof.
     + rewrite (Hf q Hq). apply I.
   - destruct (exec_setparams _ _ _ _ E) as [Hb Hp].
     split; [now rewrite Hb|]. intros q. rewrite Hp. apply I.
+  - exact (exec_tx_inv s legs s' O (conj W I) E).
 Qed.
 
 Theorem backing_history ops : forall s,
@@ -371,15 +687,65 @@ Qed.
 
 Definition state_ledgers (s : state) : Prop := forall p, ledger_ok (pairs s p).
 
+(* the same for a transaction with several logs *)
+Lemma leg_exec_ledger f l f1 :
+  leg_exec f l = Some f1 -> (forall q, ledger_ok (f q)) -> forall q, ledger_ok (f1 q).
+Proof.
+  intros E L q. destruct l as [p from to amt|p owner spender amt|from to amt]; cbn [leg_exec] in E.
+  - destruct (amt <? 0) eqn:A; [discriminate|]. apply Z.ltb_ge in A.
+    destruct (tmove (f p) from to amt) as [ps1|] eqn:E1; [|discriminate].
+    inversion E; subst; clear E.
+    destruct (Z.eq_dec q p) as [->|Hq].
+    + rewrite updp_same. eapply tmove_ledger; [exact A|apply L|exact E1].
+    + rewrite updp_other by exact Hq. apply L.
+  - destruct (_ || _); [discriminate|]. inversion E; subst. apply L.
+  - inversion E; subst. apply L.
+Qed.
+
+Lemma legs_exec_ledger ls : forall f f',
+  legs_exec f ls = Some f' -> (forall q, ledger_ok (f q)) -> forall q, ledger_ok (f' q).
+Proof.
+  induction ls as [|l r IH]; intros f f' E L; cbn [legs_exec] in E.
+  - inversion E; subst. exact L.
+  - destruct (leg_exec f l) as [f1|] eqn:E1; [|discriminate].
+    apply (IH f1 f' E). eapply leg_exec_ledger; eassumption.
+Qed.
+
+Lemma hook_leg_ledger m h bl f l :
+  (forall q, ledger_ok (f q)) -> forall q, ledger_ok (hook_leg m h bl f l q).
+Proof.
+  intros L q. destruct l as [p from to amt|p owner spender amt|from to amt]; cbn [hook_leg]; try apply L.
+  destruct (Z.eq_dec q p) as [->|Hq].
+  - rewrite updp_same. apply hook_ledger. apply L.
+  - rewrite updp_other by exact Hq. apply L.
+Qed.
+
+Lemma hooks_run_ledger m h bl ls : forall f,
+  (forall q, ledger_ok (f q)) -> forall q, ledger_ok (hooks_run m h bl f ls q).
+Proof.
+  unfold hooks_run. induction ls as [|l r IH]; intros f L; cbn [fold_left]; [exact L|].
+  apply IH. now apply hook_leg_ledger.
+Qed.
+
+Lemma exec_tx_ledger s legs s' :
+  state_ledgers s -> exec s (EvmTx legs) = Some s' -> state_ledgers s'.
+Proof.
+  intros L E. cbn [exec] in E.
+  destruct (legs_exec (pairs s) legs) as [f|] eqn:E1; [|discriminate].
+  inversion E; subst; clear E. unfold state_ledgers. cbn [pairs].
+  apply hooks_run_ledger. exact (legs_exec_ledger legs (pairs s) f E1 L).
+Qed.
+
 Lemma ledgers_step s o : state_ledgers s -> state_ledgers (deliver s o).
 Proof.
   intros L. unfold deliver. destruct (exec s o) as [s'|] eqn:E; [|exact L].
-  destruct o as [p po|m h]; intros q.
+  destruct o as [p po|m h|legs]; intros q.
   - destruct (exec_frame _ _ _ _ E) as (_ & _ & _ & Hf).
     destruct (Z.eq_dec q p) as [->|Hq].
     + eapply exec_pair_ledger; [apply L|exact (exec_pair_of _ _ _ _ E)].
     + rewrite (Hf q Hq). apply L.
   - destruct (exec_setparams _ _ _ _ E) as [_ Hp]. rewrite Hp. apply L.
+  - exact (exec_tx_ledger s legs s' L E q).
 Qed.
 
 Lemma ledgers_history ops : forall s, state_ledgers s -> state_ledgers (run ops s).
@@ -434,15 +800,87 @@ Proof.
     destruct (_ <? _); [discriminate|]. inversion E3; subst. cbn. exact Ks.
 Qed.
 
+Definition leg_from_not_blocked (bl : addr -> bool) (l : leg) : Prop :=
+  match l with LTransfer _ from _ _ => bl from = false | _ => True end.
+
 Definition from_not_blocked_op (bl : addr -> bool) (o : op) : Prop :=
-  match o with OnPair _ po => from_not_blocked bl po | SetParams _ _ => True end.
+  match o with
+  | OnPair _ po => from_not_blocked bl po
+  | SetParams _ _ => True
+  | EvmTx legs => Forall (leg_from_not_blocked bl) legs
+  end.
+
+(* one iteration of the hook's loop: nothing gets stuck when the sender is not blocked *)
+Lemma hook_stuck m h bl ps from to amt c :
+  bl from = false -> pair_inv_c ps c -> ledger_ok ps ->
+  p_stuck (hook m h bl ps from to amt) = p_stuck ps.
+Proof.
+  intros F [B [G1 G2]] L. unfold hook.
+  destruct (negb m || negb h); [reflexivity|].
+  destruct (negb (0 <? amt)); [reflexivity|].
+  destruct (negb (N.eqb to MOD)); [reflexivity|].
+  destruct (negb (p_enabled ps)); [reflexivity|].
+  destruct (p_kind ps) eqn:K.
+  - destruct (tburn ps MOD amt) as [ps2|] eqn:E2; [|reflexivity].
+    pose proof (balance_le_total ps MOD L) as Hle.
+    unfold tburn in E2. rewrite MOD_eqb_ZERO in E2.
+    destruct (p_tbal ps MOD <? amt) eqn:C; [discriminate|]. apply Z.ltb_ge in C.
+    inversion E2; subst; clear E2.
+    unfold csend_m2a. rewrite F. unfold csend. cbn [p_cbal set_t].
+    unfold backing_c, escrow in B. rewrite K in B.
+    assert (R : (p_cbal ps MOD <? amt) = false) by (apply Z.ltb_ge; lia).
+    rewrite R. reflexivity.
+  - destruct (csend_m2a bl (cmint ps amt) from amt) as [ps3|] eqn:E3; [|reflexivity].
+    unfold csend_m2a, csend in E3. destruct (bl from); [discriminate|].
+    destruct (_ <? _); [discriminate|]. inversion E3; subst. reflexivity.
+Qed.
+
+Lemma hooks_run_stuck m h bl ls : forall f (c : Z -> Z),
+  wf_blocked bl -> Forall (leg_from_not_blocked bl) ls ->
+  (forall q, pair_inv_c (f q) (c q + credits q ls)) -> (forall q, ledger_ok (f q)) ->
+  forall q, p_stuck (hooks_run m h bl f ls q) = p_stuck (f q).
+Proof.
+  unfold hooks_run. induction ls as [|l r IH]; intros f c W F I L q; cbn [fold_left credits] in *;
+    [reflexivity|].
+  inversion F as [|? ? Fl Fr]; subst.
+  rewrite (IH (hook_leg m h bl f l) c W Fr).
+  - destruct l as [p from to amt|p owner spender amt|from to amt]; cbn [hook_leg]; try reflexivity.
+    destruct (Z.eq_dec q p) as [->|Hq]; [rewrite updp_same|now rewrite updp_other].
+    eapply hook_stuck; [exact Fl|apply I|apply L].
+  - intros q'. apply (hook_leg_inv m h bl f l (fun x => c x + credits x r) W).
+    intros x. eapply pair_inv_c_eq; [|apply I]. lia.
+  - now apply hook_leg_ledger.
+Qed.
+
+Lemma not_blocked_origin bl ls :
+  wf_blocked bl -> Forall (leg_from_not_blocked bl) ls -> Forall leg_origin_ok ls.
+Proof.
+  intros W F. induction F as [|l r Fl Fr IH]; constructor; [|exact IH].
+  destruct l; cbn in *; try exact I. intros ->. unfold wf_blocked in W. congruence.
+Qed.
+
+Lemma exec_tx_stuck s legs s' p :
+  Forall (leg_from_not_blocked (blocked s)) legs -> state_inv s -> state_ledgers s ->
+  exec s (EvmTx legs) = Some s' -> p_stuck (pairs s' p) = p_stuck (pairs s p).
+Proof.
+  intros F [W I] L E. cbn [exec] in E.
+  destruct (legs_exec (pairs s) legs) as [f|] eqn:E1; [|discriminate].
+  inversion E; subst; clear E. cbn [pairs].
+  rewrite (hooks_run_stuck _ _ _ legs f (fun _ => 0) W F).
+  - apply (legs_exec_static legs (pairs s) f E1 p).
+  - intros x. apply (legs_exec_inv legs (pairs s) f (fun _ => 0) (not_blocked_origin _ _ W F) E1).
+    intros y. apply pair_inv_c_0. apply I.
+  - exact (legs_exec_ledger legs (pairs s) f E1 L).
+Qed.
 
 Lemma deliver_blocked s o : blocked (deliver s o) = blocked s.
 Proof.
   unfold deliver. destruct (exec s o) as [s'|] eqn:E; [|reflexivity].
-  destruct o as [p po|m h].
+  destruct o as [p po|m h|legs].
   - now destruct (exec_frame _ _ _ _ E) as (_ & _ & Hb & _).
   - now destruct (exec_setparams _ _ _ _ E) as [Hb _].
+  - cbn [exec] in E. destruct (legs_exec (pairs s) legs); [|discriminate].
+    now inversion E.
 Qed.
 
 Lemma stuck_step s o p :
@@ -450,11 +888,12 @@ Lemma stuck_step s o p :
   p_stuck (pairs (deliver s o) p) = p_stuck (pairs s p).
 Proof.
   intros F [W I] L. unfold deliver. destruct (exec s o) as [s'|] eqn:E; [|reflexivity].
-  destruct o as [q po|m h].
+  destruct o as [q po|m h|legs].
   - destruct (exec_frame _ _ _ _ E) as (_ & _ & _ & Hf).
     destruct (Z.eq_dec p q) as [->|Hq]; [|now rewrite (Hf p Hq)].
     eapply exec_pair_stuck; [exact F|apply I|apply L|exact (exec_pair_of _ _ _ _ E)].
   - destruct (exec_setparams _ _ _ _ E) as [_ Hp]. now rewrite Hp.
+  - exact (exec_tx_stuck s legs s' p F (conj W I) L E).
 Qed.
 
 Theorem stuck_history ops : forall s p,
@@ -568,25 +1007,6 @@ Proof.
     destruct (negb (N.eqb to MOD)); reflexivity.
 Qed.
 
-(* an ordinary transfer touches the token balances of the two parties only *)
-Lemma tmove_effect ps a b amt ps' :
-  tmove ps a b amt = Some ps' ->
-  p_cbal ps' = p_cbal ps /\ p_supply ps' = p_supply ps /\ p_total ps' = p_total ps /\
-  p_kind ps' = p_kind ps /\ p_enabled ps' = p_enabled ps /\ p_sendok ps' = p_sendok ps /\
-  p_selfburned ps' = p_selfburned ps /\ p_stuck ps' = p_stuck ps /\
-  (forall x, x <> a -> x <> b -> p_tbal ps' x = p_tbal ps x) /\
-  (a <> b -> p_tbal ps' a = p_tbal ps a - amt /\ p_tbal ps' b = p_tbal ps b + amt) /\
-  (a = b -> p_tbal ps' a = p_tbal ps a).
-Proof.
-  unfold tmove. destruct (_ || _); [discriminate|]. destruct (_ <? _); [discriminate|].
-  intros E; inversion E; subst; clear E. cbn.
-  repeat split; try reflexivity.
-  - intros x Ha Hb. now rewrite !upd_other.
-  - rewrite upd_other by assumption. apply upd_same.
-  - rewrite upd_same. rewrite upd_other by congruence. reflexivity.
-  - intros ->. rewrite !upd_same. lia.
-Qed.
-
 (* ordinary transfers keep working whatever the switches say *)
 Lemma transfer_works m h bl ps from to amt :
   from <> ZERO -> to <> ZERO -> 0 <= amt <= p_tbal ps from ->
@@ -685,11 +1105,20 @@ Definition gate_step (x : state * op * state) : Prop :=
          (from <> ZERO -> to <> ZERO -> 0 <= amt <= p_tbal (pairs s p) from ->
           tmove (pairs s p) from to amt = Some (pairs s' p)))
   | SetParams _ _ => True
+  | EvmTx _ =>
+      (* a transaction with several logs: whatever it contains, the bank side of a pair whose
+         hook route is switched off is untouched *)
+      forall p,
+        en_mod s = false \/ en_hook s = false \/ p_enabled (pairs s p) = false ->
+        bank_same (pairs s p) (pairs s' p)
   end.
 
 Lemma gate_step_holds s o : gate_step (s, o, deliver s o).
 Proof.
-  unfold gate_step. destruct o as [p po|m h]; [|exact I]. split.
+  unfold gate_step. destruct o as [p po|m h|legs]; [|exact I|].
+  2:{ intros p G. unfold deliver. destruct (exec s (EvmTx legs)) as [s'|] eqn:E; [|now split].
+      destruct (exec_tx_closed s legs s' p G E) as ((Hc & Hs & _) & _). now split. }
+  split.
   - intros sender receiver C G.
     destruct G as [G|[G|G]].
     + apply (msg_gate s p po sender receiver C). now left.
@@ -716,6 +1145,7 @@ Definition keeps_switches (p : Z) (o : op) : Prop :=
   | SetParams _ _ => False
   | OnPair q Toggle => q <> p
   | OnPair _ _ => True
+  | EvmTx _ => True
   end.
 
 Lemma exec_pair_frozen m h bl ps o ps' :
@@ -760,7 +1190,10 @@ Proof.
                    p_enabled (pairs (deliver s o) p) = p_enabled (pairs s p)).
     { split; [apply deliver_blocked|].
       unfold deliver. destruct (exec s o) as [s'|] eqn:E; [|repeat split; lia].
-      destruct o as [q po|m h]; [|contradiction].
+      destruct o as [q po|m h|legs]; [|contradiction|].
+      2:{ assert (G3 : en_mod s = false \/ en_hook s = false \/ p_enabled (pairs s p) = false) by tauto.
+          destruct (exec_tx_closed s legs s' p G3 E) as ((Hc & Hs & Ht & _ & He & _) & Hm & _).
+          unfold escrow. rewrite Hc, Hs, Ht, He. repeat split; try assumption; lia. }
       destruct (exec_frame _ _ _ _ E) as (Hm & _ & _ & Hf).
       split; [exact Hm|].
       destruct (Z.eq_dec p q) as [->|Hq].
@@ -841,6 +1274,34 @@ Proof. vm_compute. repeat split. Qed.
 Example ex_history_backed :
   state_inv (run ex_history ex_state).
 Proof. apply backing_history; [apply ex_history_origin|apply ex_state_inv]. Qed.
+
+(* transactions with several logs.  Account 7 stands for a contract account (a vault): it
+   receives 20 tokens of pair 0 and then, in ONE transaction, sends tokens to the module
+   address twice, with a holder-to-holder transfer, an approval naming the module, a log of an
+   unregistered contract and a transfer to the module by another holder in between.  The
+   second transaction is on the external pair: a zero-amount log, a transfer to another
+   module account, and a log whose sender is a blocked address in the middle (coins are
+   minted but cannot be paid out: `continue`), followed by a further log *)
+Definition ex_tx_history : list op :=
+  [ OnPair 0 (EvmTransfer 2%N 7%N 20);
+    EvmTx [ LTransfer 0 7%N MOD 5; LTransfer 0 2%N 3%N 4; LApprove 0 7%N MOD 9;
+            LTransfer 0 7%N MOD 6; LForeign 7%N MOD 100; LTransfer 0 3%N MOD 1 ];
+    EvmTx [ LTransfer 1 2%N MOD 10; LTransfer 1 2%N MOD 0; LTransfer 1 2%N OTHER_MODULE 5;
+            LTransfer 1 OTHER_MODULE MOD 2; LTransfer 1 2%N MOD 3 ];
+    EvmTx [ LTransfer 0 7%N MOD 4; LTransfer 0 7%N MOD 6 ] ].   (* 7 owns 9 only: reverts *)
+
+Example ex_tx_history_origin : Forall origin_ok_op ex_tx_history.
+Proof. unfold ex_tx_history. repeat constructor; cbn; discriminate. Qed.
+
+Example ex_tx_history_result :
+  let s := run ex_tx_history ex_state in
+  (escrow (pairs s 0), p_total (pairs s 0), p_cbal (pairs s 0) 7%N, p_cbal (pairs s 0) 3%N,
+   p_tbal (pairs s 0) 7%N, p_tbal (pairs s 0) MOD) = (38, 38, 11, 1, 9, 0) /\
+  (p_supply (pairs s 1), p_tbal (pairs s 1) MOD, escrow (pairs s 1), p_cbal (pairs s 1) 2%N) = (25, 25, 2, 13).
+Proof. vm_compute. split; reflexivity. Qed.
+
+Example ex_tx_history_backed : state_inv (run ex_tx_history ex_state).
+Proof. apply backing_history; [apply ex_tx_history_origin|apply ex_state_inv]. Qed.
 
 (* the gates are not vacuous: the same conversion succeeds when enabled and is rejected when
    any one switch is off *)
